@@ -109,6 +109,11 @@ def stepWrap : List String → Option String
   | ["w_hash", a, m] => do let a ← HashAlg.ofName? a; let m ← parseHex m; pure ("ok:" ++ toHex (getHash c a m))
   | ["w_hash_int", a, v] => do
     let a ← HashAlg.ofName? a; let v ← parseInt v; pure ("ok:" ++ toHex (getHash c a (updateIntBytes v)))
+  | ["w_hash_len", label] => pure (resLine toString (getHashLength label))
+  | "w_hash_stream" :: a :: parts => do
+    let a ← HashAlg.ofName? a
+    let parts ← parts.mapM parseHex
+    pure ("ok:" ++ toHex ((parts.foldl HashObj.update (HashObj.new a)).finalize c))
   | ["w_crc", name, d] => do let d ← parseHex d; pure (resLine toString (crcCalculate name d))
   | ["w_crc_verify", name, d, v] => do
     let d ← parseHex d; let v ← parseNat v; pure (resLine boolStr (crcVerify name d v))
